@@ -696,7 +696,7 @@ func runR204(c *core.Ctx) {
 		})
 		// every body of the function: its own and those of its function literals
 		bodies := []*ast.BlockStmt{cfd.Body}
-		for _, fl := range core.FuncLitsIn(cfd.Body) {
+		for _, fl := range core.AllFuncLits(cfd.Body) {
 			bodies = append(bodies, fl.Body)
 		}
 		for _, body := range bodies {
